@@ -4,6 +4,7 @@
   fresh attribute, and the resulting state is reported together with the bytes `get_as_bytes()` must produce.
 -/
 import Dlismodel.Model.Convert
+import Dlismodel.Model.Defaults
 import Dlismodel.Standard
 import Dlismodel.StandardConvs
 namespace Dlis
@@ -152,6 +153,64 @@ def handleAsg : List String → String
       s!"{",".intercalate outs} v= {showPyVal fin.value} u={match fin.units with | some u => showCpsC u | none => "~"} rc={rc} cnt={cnt} bytes={bytes}"
     | none, _, _ => "unknown-attribute"
     | _, _, _ => "bad"
+  | _ => "bad"
+
+end Dlis
+
+namespace Dlis
+
+def pNatList (s : String) : Option (Option (List Nat)) :=
+  if s == "~" then some none else if s == "-" then some (some [])
+  else ((s.splitOn ",").mapM fun (t : String) => t.toNat?).map some
+
+def pAxes (s : String) : Option (Option (List (Option Nat))) :=
+  if s == "~" then some none else if s == "-" then some (some [])
+  else ((s.splitOn ",").mapM fun (t : String) => if t == "n" then some (none : Option Nat) else t.toNat?.map some).map some
+
+def showDim : Option (List Nat) → String
+  | none => "~"
+  | some [] => "-"
+  | some l => ",".intercalate (l.map toString)
+
+partial def takePyVals : Nat → List String → Option (List PyVal × List String)
+  | 0, ts => some ([], ts)
+  | n + 1, ts => match takePyVal ts with
+    | some (v, r) => (takePyVals n r).map fun (vs, r') => (v :: vs, r')
+    | none => none
+
+/-- `dflt …`: the write-time checks and defaults of `Model/Defaults.lean` -/
+def handleDflt : List String → String
+  | "param" :: single :: rest =>
+    match takePyVal rest with
+    | some (v, [zc, dim, axes]) =>
+      match pOpt String.toNat? zc, pNatList dim, pAxes axes with
+      | some zc, some dim, some axes => showErrOr (fun d => "ok " ++ showDim d) (paramDefaults (single == "1") v zc dim axes)
+      | _, _, _ => "bad"
+    | _ => "bad"
+  | "calmeas" :: k :: rest =>
+    match k.toNat? with
+    | some k => match takePyVals k rest with
+      | some (vs, [dim, axes]) => match pNatList dim, pAxes axes with
+        | some dim, some axes => showErrOr (fun d => "ok " ++ showDim d) (calMeasDefaults vs dim axes)
+        | _, _ => "bad"
+      | _ => "bad"
+    | none => "bad"
+  | "calcoef" :: k :: rest =>
+    match k.toNat? with
+    | some k => match takePyVals k rest with
+      | some (vs, []) => showErrOr (fun _ => "ok") (calCoefDefaults vs)
+      | _ => "bad"
+    | none => "bad"
+  | ["chdata", dimension, limit, dim] =>
+    match pNatList dimension, pNatList limit, pNatList dim with
+    | some dimension, some limit, some (some dim) =>
+      showErrOr (fun p => s!"ok {showDim p.1} {showDim p.2}") (channelFromData dimension limit dim)
+    | _, _, _ => "bad"
+  | "chdef" :: dimension :: limit :: axes :: rest =>
+    match pNatList dimension, pNatList limit, pAxes axes, takePyVal rest with
+    | some dimension, some limit, some axes, some (ln, []) =>
+      showErrOr (fun p => s!"ok {showDim p.1} {showDim p.2.1} {if p.2.2 then 1 else 0}") (channelDefaults dimension limit axes ln)
+    | _, _, _, _ => "bad"
   | _ => "bad"
 
 end Dlis
